@@ -159,3 +159,27 @@ example : goodPos (fun x : ℚ => 1 + x / 4) [-3, -1, -2] [1/2, 99/100, 1/5]
     = goodPos (fun x : ℚ => 1 + x / 4) ([-3, -1, -2].map (· + 7)) [1/2, 99/100, 1/5] := by decide +kernel
 
 end Reject
+
+/-! ### End to end: the sampler's accepted set does not depend on the unit of the data -/
+namespace Kernel
+noncomputable section
+open Classical in
+/-- **the accepted set is unit-free**: for any library of nonlinear samples (each giving a kernel input with the
+same `n` epochs), any uniform draws and any data-unit factor `c > 0`, the positions accepted by the rejection
+rule applied to the kernel's marginal ln-likelihoods are the same before and after re-expressing the data —
+composition of `ll_data_unit_jacobian` (kernel) with `Reject.goodPos_shift_invariant` (rejection rule) -/
+theorem sampler_accepted_set_unit_invariant {n k : ℕ} (expf : ℝ → ℝ) (c : ℝ) (hc : 0 < c)
+    (lib : List (KIn n k ℝ × (Fin n → ℝ))) (hphys : ∀ p ∈ lib, Phys p.1 p.2) (uu : List ℝ) :
+    Reject.goodPos expf (lib.map fun p => kll (scaleIn c p.1)) uu =
+      Reject.goodPos expf (lib.map fun p => kll p.1) uu := by
+  have h : (lib.map fun p => kll (scaleIn c p.1)) = (lib.map fun p => kll p.1).map (· + (-(n * Real.log c))) := by
+    rw [List.map_map]
+    apply List.map_congr_left
+    intro p hp
+    simp only [Function.comp]
+    rw [ll_data_unit_jacobian c hc p.1 p.2 (hphys p hp)]
+    ring
+  rw [h, Reject.goodPos_shift_invariant]
+
+end
+end Kernel
